@@ -267,14 +267,14 @@ fn models(tier: Tier) -> Vec<Model> {
             v.extend(gen::m8(0).into_iter().step_by(5));
         }
         Tier::Thorough => {
-            v.extend(gen::m1(1).into_iter().step_by(11));
-            v.extend(gen::m2(1).into_iter().step_by(997));
-            v.extend(gen::m3(1).into_iter().step_by(13));
-            v.extend(gen::m4(1).into_iter().step_by(5));
-            v.extend(gen::m5(1).into_iter().step_by(2));
+            v.extend(gen::m1(1).into_iter().step_by(3));
+            v.extend(gen::m2(1).into_iter().step_by(199));
+            v.extend(gen::m3(1).into_iter().step_by(3));
+            v.extend(gen::m4(1).into_iter().step_by(1));
+            v.extend(gen::m5(1).into_iter().step_by(1));
             v.extend(gen::m6(1));
-            v.extend(gen::m7(1).into_iter().step_by(3));
-            v.extend(gen::m8(1).into_iter().step_by(2));
+            v.extend(gen::m7(1).into_iter().step_by(1));
+            v.extend(gen::m8(1).into_iter().step_by(1));
         }
     }
     v
